@@ -806,6 +806,10 @@ class VhdlScope:
                 else:
                     enumerators = [member.name for member in obj.__members__]
 
+                assert len({e.lower() for e in enumerators}) == len(
+                    enumerators
+                ), f"enumerators of '{name}' are not unique (VHDL identifiers are case insensitive)"
+
                 for enumerator in enumerators:
                     assert _is_valid_identifier(
                         enumerator
